@@ -40,9 +40,34 @@ def pv_lines(sysd, lines, appids=None, tasktypes=()):
 def model_files(pvtext_line):
     """{name: bytes} from the driver's `pvtext` answer, or None"""
     w = pvtext_line.split()
-    if len(w) != 7 or w[0] != "pvtext":
+    if len(w) != 9 or w[0] != "pvtext":
         return None
-    return {n: (bytes.fromhex(h) if h != "-" else b"") for n, h in zip(FILES, w[1:])}
+    m = {n: (bytes.fromhex(h) if h != "-" else b"") for n, h in zip(FILES, w[1:7])}
+    m["thread.pcf types"], m["cpu.pcf types"] = w[7], w[8]
+    return m
+
+
+def unhex(h):
+    return bytes.fromhex(h) if h not in ("-", "") else b""
+
+
+def pcf_types_diff(path, canon):
+    """The event types the model's reader (`parsePcfTypes`, Lean) found in the
+    MODEL's .pcf text (`canon`, from the driver) against the types the Python
+    reader (tools/ovnitrace.read_pcf, which drops the blanks before a label)
+    finds in the file OVNIEMU wrote.  None if equal (or not decodable)."""
+    import ovnitrace
+    if canon == "none":
+        return "the model's reader cannot read the model's own .pcf text"
+    try:
+        real = [(t, lab, list(vals.items())) for t, (lab, vals) in ovnitrace.read_pcf(path).items()]
+        model = [] if canon == "-" else [
+            (int(t), unhex(lab).decode().lstrip(),
+             [(int(x.split("=")[0]), unhex(x.split("=")[1]).decode().lstrip()) for x in vs.split(",") if x])
+            for t, lab, vs in (b.split(":") for b in canon.split(";"))]
+    except (UnicodeDecodeError, OSError):
+        return None
+    return None if real == model else "event types differ: ovniemu %r model %r" % (real[:6], model[:6])
 
 
 def first_diff(a, b):
@@ -71,4 +96,8 @@ def compare_files(tracedir, mfiles, only=None):
             continue
         if impl != mfiles[n]:
             out.append((n, "%s differs, %s" % (n, first_diff(impl, mfiles[n]))))
+        if n.endswith(".pcf"):
+            d = pcf_types_diff(os.path.join(tracedir, n), mfiles[n + " types"])
+            if d is not None:
+                out.append((n, "%s %s" % (n, d)))
     return out
